@@ -3,6 +3,10 @@ package main
 import (
 	"fmt"
 	"math/rand"
+	"net/http/httptest"
+	"strings"
+
+	"github.com/pingcap/kvproto/pkg/metapb"
 
 	"github.com/tikv/pd/server/core"
 	"github.com/tikv/pd/server/kv"
@@ -170,8 +174,8 @@ func drain(stream *hbstream.HeartbeatStreams) {
 // schedWorld: one world, every built-in scheduler of the property created through schedule.CreateScheduler
 // with the real OperatorController; calls are interleaved, operators are judged, some are executed on the
 // world (the region moves), some are left running in the controller (their influence biases later calls).
-func schedWorld(s *stats, rng *rand.Rand, nRegions, calls int) error {
-	w := randomWorld(rng, false)
+func schedWorld(s *stats, rng *rand.Rand, nRegions, calls int, scale int) error {
+	w := randomWorld(rng, scale)
 	// admin schedulers that pause a store: only plain up stores, distinct (anything else is a contradictory setup)
 	var plainUp []uint64
 	for _, sd := range w.Stores {
@@ -226,7 +230,35 @@ func schedWorld(s *stats, rng *rand.Rand, nRegions, calls int) error {
 	}
 	var calllog []string
 	var running []*operator.Operator
+	dynamic := rng.Intn(100) < 60
+	if dynamic {
+		s.count("sched_worlds_dynamic", 1)
+	}
+	if scale > 0 {
+		s.count("sched_worlds_at_scale", 1)
+		s.count("sched_stores_in_worlds_at_scale", int64(len(w.Stores)))
+	}
+	if rng.Intn(100) < 15 {
+		cl.allocFailPct = 10
+		s.count("sched_worlds_with_id_allocation_faults", 1)
+	}
+	defer func() { s.count("id_allocation_faults_injected", int64(cl.allocFaults)) }()
 	for k := 0; k < calls; k++ {
+		if dynamic && rng.Intn(100) < 5 {
+			if rng.Intn(3) == 0 {
+				evictHandlerChange(rng, s, cl, insts)
+			} else {
+				cl.mutate(rng, s, true)
+			}
+		}
+		cl.disarm()
+		if dynamic && rng.Intn(100) < 4 {
+			if rng.Intn(3) == 0 {
+				cl.armMidCallRegionChange(rng, s, regions)
+			} else {
+				cl.armMidCallChange(rng, s)
+			}
+		}
 		in := insts[rng.Intn(len(insts))]
 		if !in.s.IsScheduleAllowed(cl) {
 			s.count("sched_not_allowed_"+in.typ, 1)
@@ -241,7 +273,7 @@ func schedWorld(s *stats, rng *rand.Rand, nRegions, calls int) error {
 		ops, panicked := callSchedule(in.s, cl)
 		if panicked != nil {
 			s.report(&finding{Key: "panic-in-schedule:" + in.typ, What: fmt.Sprintf("%s.Schedule panicked: %v", in.typ, panicked), Size: len(w.Stores) * 1000,
-				Witness: map[string]interface{}{"world": w, "calls": append([]string(nil), calllog...), "panic": fmt.Sprint(panicked)}})
+				Witness: map[string]interface{}{"world": w.clone(), "calls": append([]string(nil), calllog...), "panic": fmt.Sprint(panicked)}})
 			continue
 		}
 		if len(ops) == 0 {
@@ -252,7 +284,7 @@ func schedWorld(s *stats, rng *rand.Rand, nRegions, calls int) error {
 			origin := cl.GetRegion(op.RegionID())
 			if origin == nil {
 				s.report(&finding{Key: "operator-for-unknown-region:" + in.typ, What: fmt.Sprintf("%s returned an operator for region %d which the cluster does not know", in.typ, op.RegionID()), Size: 1,
-					Witness: map[string]interface{}{"world": w, "operator": op.String()}})
+					Witness: map[string]interface{}{"world": w.clone(), "operator": op.String()}})
 				continue
 			}
 			s.count("sched_operators_"+in.typ, 1)
@@ -261,9 +293,23 @@ func schedWorld(s *stats, rng *rand.Rand, nRegions, calls int) error {
 			if n > 25 {
 				from = n - 25
 			}
-			c := &opCase{Src: in.typ, W: w, Origin: origin, Op: op,
+			c := &opCase{Src: in.typ, W: cl.judgeWorld(), Origin: origin, Op: op,
 				Extra: map[string]interface{}{"earlier_calls_in_this_world": append([]string(nil), calllog[from:]...), "operators_running_in_controller": len(running)}}
-			v := judgeOp(s, c)
+			var v verdict
+			if old := cl.regionBefore[op.RegionID()]; old != nil && cl.injected {
+				// the region changed in the middle of this call: the operator may have been built for either version
+				s.count("operators_for_a_region_changed_in_the_middle_of_the_call", 1)
+				tmp := newStats()
+				cOld := *c
+				cOld.Origin = old
+				if v = judgeOp(tmp, &cOld); v.Failed {
+					v = judgeOp(s, c)
+				} else {
+					s.absorb(tmp)
+				}
+			} else {
+				v = judgeOp(s, c)
+			}
 			if len(calllog) > 200 {
 				calllog = append(calllog[:0], calllog[100:]...)
 			}
@@ -314,4 +360,107 @@ func schedWorld(s *stats, rng *rand.Rand, nRegions, calls int) error {
 		in.s.Cleanup(cl)
 	}
 	return nil
+}
+
+// evictHandlerChange adds a store to / removes a store from the running evict-leader scheduler through the
+// scheduler's own HTTP handler (what `pd-ctl scheduler config evict-leader-scheduler add-store` does).
+func evictHandlerChange(rng *rand.Rand, s *stats, cl *cluster, insts []*schedInst) {
+	w := cl.w
+	var ev schedule.Scheduler
+	for _, in := range insts {
+		if in.typ == schedulers.EvictLeaderType {
+			ev = in.s
+		}
+	}
+	if ev == nil {
+		return
+	}
+	if len(w.EvictMore) > 0 && rng.Intn(2) == 0 {
+		id := w.EvictMore[0]
+		req := httptest.NewRequest("DELETE", fmt.Sprintf("/delete/%d", id), nil)
+		rec := httptest.NewRecorder()
+		ev.ServeHTTP(rec, req)
+		if rec.Code != 200 {
+			s.count("evict_handler_delete_refused", 1)
+			return
+		}
+		w.EvictMore = w.EvictMore[1:]
+		w.note("evict-leader: store %d removed through the handler", id)
+		s.count("dynamic_evict_leader_stores_removed", 1)
+		return
+	}
+	var cand []uint64
+	for i := range w.Stores {
+		sd := &w.Stores[i]
+		if w.plainUp(sd) && !w.usedByAdminScheduler(sd.ID) {
+			cand = append(cand, sd.ID)
+		}
+	}
+	if len(cand) < 3 {
+		return
+	}
+	id := cand[rng.Intn(len(cand))]
+	req := httptest.NewRequest("POST", "/config", strings.NewReader(fmt.Sprintf(`{"store_id": %d}`, id)))
+	rec := httptest.NewRecorder()
+	ev.ServeHTTP(rec, req)
+	if rec.Code != 200 {
+		s.count("evict_handler_add_refused", 1)
+		return
+	}
+	w.EvictMore = append(w.EvictMore, id)
+	w.note("evict-leader: store %d added through the handler", id)
+	s.count("dynamic_evict_leader_stores_added", 1)
+}
+
+// armMidCallRegionChange: at some cluster query inside the next Schedule call a region heartbeat arrives that
+// moved the leader or a follower of one region (what a store does on its own or for another operator).
+func (c *cluster) armMidCallRegionChange(rng *rand.Rand, s *stats, regions []*core.RegionInfo) {
+	c.before = c.w.clone()
+	c.regionBefore = map[uint64]*core.RegionInfo{}
+	c.armInjection(1+rng.Intn(40), func() {
+		for try := 0; try < 5; try++ {
+			old := c.Cluster.GetRegion(regions[rng.Intn(len(regions))].GetID())
+			if old == nil || old.GetLeader() == nil {
+				continue
+			}
+			r := sim.FromInfo(old)
+			if r.InJoint() {
+				continue
+			}
+			changed := false
+			if rng.Intn(2) == 0 {
+				for _, p := range r.Peers {
+					if sd := c.w.store(p.StoreId); p.StoreId != r.LeaderStore && p.Role == metapb.PeerRole_Voter && sd != nil && sd.isUp() {
+						changed = r.ForceLeader(p.StoreId)
+						break
+					}
+				}
+			} else {
+				var free []uint64
+				for _, sd := range c.w.Stores {
+					if sd.isUp() && sd.Engine == "" && r.Peer(sd.ID) == nil {
+						free = append(free, sd.ID)
+					}
+				}
+				for _, p := range r.Peers {
+					if p.StoreId != r.LeaderStore && p.Role == metapb.PeerRole_Voter && len(free) > 0 {
+						to := free[rng.Intn(len(free))]
+						if r.AddVoter(to, c.allocPeerID()) == nil && r.Remove(p.StoreId, 0) == nil {
+							changed = true
+						}
+						break
+					}
+				}
+			}
+			if !changed {
+				continue
+			}
+			c.regionBefore[old.GetID()] = old
+			c.PutRegion(r.Info().Clone(core.SetWrittenBytes(old.GetBytesWritten()), core.SetWrittenKeys(old.GetKeysWritten()),
+				core.SetReadBytes(old.GetBytesRead()), core.SetReadKeys(old.GetKeysRead()), core.SetApproximateKeys(old.GetApproximateKeys())))
+			c.refreshStores()
+			s.count("dynamic_region_changes_in_the_middle_of_a_call", 1)
+			return
+		}
+	})
 }
